@@ -78,6 +78,36 @@ theorem fastSynth_eq_of_rel (br bf : Basis K) (M L N J H pn pj pc : Nat) (hM : 1
       rw [hrel.pz _ j l (Or.inl hj')]; ring
     rw [this]; ring
 
+
+/-- **T9.1** `Fast.synth (ι x) = pad (Real.synth x)` -/
+theorem fastSynth_iota (br bf : Basis K) (M L N J H pn pj pr pc : Nat) (hM : 1 ≤ M)
+    (hpr : 2 * M + pr = 2 * H)
+    (hbr : Shaped br N (2 * M - 1) J L) (hbf : Shaped bf (N + pn) H (J + pj) (L + pc))
+    (hrel : IotaRel br bf M L J) (x : List (List K))
+    (hxl : x.length = 2 * M - 1) (hx : ∀ row ∈ x, row.length = L) :
+    fastSynth bf (J + pj) (iota L pr pc x) = padNodal pn pj J (realSynth br J x) := by
+  have hne : x ≠ [] := by intro h; rw [h] at hxl; simp at hxl; omega
+  apply fastSynth_eq_of_rel br bf M L N J H pn pj pc hM (by omega) hbr hbf hrel x
+  · rw [iota_length _ _ _ _ hne, hxl]; omega
+  · intro row hrow; rw [iota_rows L pr pc x hx row hrow]
+  · intro row hrow; rw [hx row hrow]
+  · intro r l _ _; exact ent2_iota_src L pr pc x r l
+
+/-- **T9.1, strong form**: the fast synthesis of *any* array of the fast shape is the padded real
+ synthesis of its `ι`-preimage — row 1 and the padding rows / columns of the input have no
+ influence on the result -/
+theorem fastSynth_eq_real (br bf : Basis K) (M L N J H pn pj pc : Nat) (hM : 1 ≤ M) (hH : M ≤ H)
+    (hbr : Shaped br N (2 * M - 1) J L) (hbf : Shaped bf (N + pn) H (J + pj) (L + pc))
+    (hrel : IotaRel br bf M L J) (y : List (List K))
+    (hyl : y.length = 2 * H) (hy : ∀ row ∈ y, row.length = L + pc) :
+    fastSynth bf (J + pj) y = padNodal pn pj J (realSynth br J (unIota (2 * M) L y)) := by
+  apply fastSynth_eq_of_rel br bf M L N J H pn pj pc hM hH hbr hbf hrel _ y hyl
+  · intro row hrow; rw [hy row hrow]
+  · intro row hrow
+    rw [unIota_rows (2 * M) L y (fun r hr => by rw [hy r hr]; omega) row hrow]
+  · intro r l hr hl
+    rw [ent2_unIota, if_pos ⟨hl, src_lt r (2 * M) (by omega)⟩]
+
 /-! ## T9.2 analysis -/
 
 theorem exists_src (r : Nat) (h : r ≠ 1) : ∃ r0, r = src r0 := by
@@ -159,6 +189,257 @@ theorem fastAnalysis_pad (br bf : Basis K) (M L N J H pn pj pr pc : Nat) (hM : 1
   intro i _
   rw [hrel.f0 i r0 hr0, hrel.w j hj', ent2_padNodal]
 
+/-! ## T9.3 longitude derivative -/
+
+/-- **T9.3** `real_basis_derivative_with_zero_imag (ι x) = ι (real_basis_derivative x)` for every
+ array with an odd number of rows (the real layout; the code raises otherwise) -/
+theorem zeroImagDerivative_iota (L pr pc : Nat) (x : List (List K)) (hodd : x.length % 2 = 1)
+    (hx : ∀ r ∈ x, r.length = L) :
+    zeroImagDerivative (iota L pr pc x) (L + pc) 0 = iota L pr pc (realDerivative x L) := by
+  have hne : x ≠ [] := by intro h; rw [h] at hodd; simp at hodd
+  have hDl : (realDerivative x L).length = x.length := by simp [realDerivative]
+  have hDne : realDerivative x L ≠ [] := by
+    intro h; rw [h] at hDl; simp at hDl; exact hne (List.eq_nil_of_length_eq_zero hDl.symm)
+  apply ext_ent2 _ _ (L + pc)
+  · simp only [zeroImagDerivative, List.length_map, List.length_range]
+    rw [iota_length _ _ _ _ hne, iota_length _ _ _ _ hDne, hDl]
+  · exact (derivative_rows _ _ (iota_rows L pr pc x hx)).2 0
+  · exact iota_rows L pr pc _ (derivative_rows x L hx).1
+  intro r l
+  rw [ent2_zeroImagDerivative, iota_length _ _ _ _ hne]
+  have hR : ∀ r, ent2 (iota L pr pc (realDerivative x L)) r l
+      = if r = 1 then 0 else ent2 (realDerivative x L) (r - if r = 0 then 0 else 1) l :=
+    fun r => ent2_iota L pr pc _ r l
+  have hpos : 0 < x.length := by omega
+  match r with
+  | 0 =>
+    rw [hR 0, ent2_iota_one, ent2_realDerivative]
+    simp [hpos]
+  | 1 =>
+    rw [hR 1]
+    simp
+  | k + 2 =>
+    have hRk : ent2 (iota L pr pc (realDerivative x L)) (k + 2) l
+        = ent2 (realDerivative x L) (k + 1) l := by rw [hR]; simp
+    rw [hRk, ent2_realDerivative]
+    by_cases hin : k + 2 < x.length + 1 + pr
+    swap
+    · rw [if_neg hin, if_neg (by omega)]
+    rw [if_pos hin]
+    have e2 : k + 2 + 1 = src (k + 2) := by simp [src]
+    have e3 : (0 + (k + 2) / 2 : Nat) = (k + 1 + 1) / 2 := by omega
+    rw [e3]
+    by_cases hpar : k % 2 = 0
+    · -- fast row `k+2` is a cosine row: it reads the next row
+      rw [if_pos (show (k + 2 + 1) % 2 = 1 by omega), if_pos (show (k + 1) % 2 = 1 by omega), e2,
+        ent2_iota_src]
+      by_cases hk : k + 1 < x.length
+      · rw [if_pos hk]
+      · rw [if_neg hk, ent2_of_length_le x (k + 2) l (by omega)]; ring
+    · -- a sine row: it reads the previous row, which is never row 1
+      rw [if_neg (show ¬ (k + 2 + 1) % 2 = 1 by omega), if_neg (show ¬ (k + 1) % 2 = 1 by omega),
+        if_neg (show ¬ k + 1 = 0 by omega)]
+      have e4 : k + 2 - 1 = src k := by unfold src; split <;> omega
+      have e5 : k + 1 - 1 = k := by omega
+      rw [e4, ent2_iota_src, e5]
+      by_cases hk : k + 1 < x.length
+      · rw [if_pos hk]
+      · -- `k ≥ x.length - 1`, `k` odd and `x.length` odd: `k ≥ x.length`
+        rw [if_neg hk, ent2_of_length_le x k l (by omega)]; ring
+
+
+/-! ## T9.4 stacked = unstacked Fourier contraction -/
+
+/-- **T9.4 (synthesis)** `einsum('ism,…smj->…ij')` against the reshaped `f` equals `_stack_m`
+ followed by `einsum('im,…mj->…ij')`, for every `f` and every input with an even number of rows -/
+theorem fastSynthStacked_eq (b : Basis K) (J : Nat) (x : List (List K)) (hx : x.length % 2 = 0)
+    (hp : ∀ pm ∈ b.p, pm.length = J) : fastSynthStacked b J x = fastSynth b J x := by
+  unfold fastSynthStacked fastSynth invFourier
+  apply stacked_matMul
+  · rw [invLegendre_length, invLegendre_length, evens_length, odds_length]
+    have : (x.length + 1) / 2 = x.length / 2 := by omega
+    rw [this]
+  · exact invLegendre_rows _ _ J hp
+  · exact invLegendre_rows _ _ J hp
+
+/-- **T9.4 (analysis)** for every even row count of the fast layout -/
+theorem fastAnalysisStacked_eq (b : Basis K) (H J L : Nat) (z : List (List K)) :
+    fastAnalysisStacked b (2 * H) J L z = fastAnalysis b (2 * H) J L z := by
+  unfold fastAnalysisStacked fastAnalysis
+  have h := fwdFourier_evens_odds b.f (weight b.w z) H J
+  have hH : 2 * H / 2 = H := by omega
+  simp only [hH]
+  rw [h.1, h.2]
+
+/-! ## T9.5 the option record does not change results -/
+
+/-- **T9.5 (synthesis)** every value of `stacked_fourier_transforms`, `reverse_einsum_arg_order` and
+ `transform_precision` gives the unstacked, non-reversed result (commutativity of the contraction) -/
+theorem fastSynthOpt_eq (o : Opts) (b : Basis K) (J : Nat) (x : List (List K))
+    (hx : x.length % 2 = 0) (hp : ∀ pm ∈ b.p, pm.length = J) :
+    fastSynthOpt o b J x = fastSynth b J x := by
+  unfold fastSynthOpt
+  simp only [invLegendreR_eq, matMulR_eq, ite_self]
+  split
+  · exact fastSynthStacked_eq b J x hx hp
+  · rfl
+
+/-- **T9.5 (analysis)** -/
+theorem fastAnalysisOpt_eq (o : Opts) (b : Basis K) (H J L : Nat) (z : List (List K)) :
+    fastAnalysisOpt o b (2 * H) J L z = fastAnalysis b (2 * H) J L z := by
+  unfold fastAnalysisOpt
+  simp only [fwdFourierR_eq, fwdLegendreR_eq, ite_self]
+  split
+  · exact fastAnalysisStacked_eq b H J L z
+  · rfl
+
+/-- two option records always agree -/
+theorem fastSynthOpt_indep (o o' : Opts) (b : Basis K) (J : Nat) (x : List (List K))
+    (hx : x.length % 2 = 0) (hp : ∀ pm ∈ b.p, pm.length = J) :
+    fastSynthOpt o b J x = fastSynthOpt o' b J x := by
+  rw [fastSynthOpt_eq o b J x hx hp, fastSynthOpt_eq o' b J x hx hp]
+
+theorem fastAnalysisOpt_indep (o o' : Opts) (b : Basis K) (H J L : Nat) (z : List (List K)) :
+    fastAnalysisOpt o b (2 * H) J L z = fastAnalysisOpt o' b (2 * H) J L z := by
+  rw [fastAnalysisOpt_eq, fastAnalysisOpt_eq]
+
+/-! ## clipping -/
+
+theorem ent_clipMask (width nz j : Nat) :
+    ent (clipMask width nz : List K) j = if j < width - nz then 1 else 0 := by
+  unfold clipMask ent
+  simp only [List.getD_eq_getElem?_getD, List.getElem?_map]
+  rcases Nat.lt_or_ge j width with hj | hj
+  · rw [List.getElem?_range hj]; rfl
+  · rw [List.getElem?_eq_none (by simpa using hj)]
+    simp; omega
+
+/-- `clip_wavenumbers` commutes with `ι` (the fast layout zeroes `n + padding` trailing columns);
+ both raise for `n ≤ 0` -/
+theorem clip_iota (L pr pc : Nat) (n : Int) (x : List (List K)) (hx : ∀ r ∈ x, r.length = L) :
+    clipWavenumbers L pc n (iota L pr pc x) = (clipWavenumbers L 0 n x).map (iota L pr pc) := by
+  unfold clipWavenumbers
+  split
+  · rfl
+  · simp only [Option.map_some, Nat.add_zero]
+    congr 1
+    apply mulLast_iota L pr pc x _ _ hx (by simp [clipMask]) (by simp [clipMask])
+    intro j _
+    rw [ent_clipMask, ent_clipMask]
+    have : L + pc - (n.toNat + pc) = L - n.toNat := by omega
+    rw [this]
+
 end ring
+
+/-! ## eigenvalue operations (fields: the code divides by `radius²`) -/
+section field
+variable {F : Type} [Field F]
+
+theorem lvals_eq (L pc : Nat) : lvals L pc = lvals L 0 ++ List.replicate pc 0 := by
+  simp [lvals]
+
+theorem lapEig_length (r2 : F) (ls : List Nat) : (lapEig r2 ls).length = ls.length := by
+  simp [lapEig]
+
+theorem lvals_length (L pc : Nat) : (lvals L pc).length = L + pc := by simp [lvals]
+
+theorem ent_lapEig_prefix (r2 : F) (L pc j : Nat) (hj : j < L) :
+    ent (lapEig r2 (lvals L pc)) j = ent (lapEig r2 (lvals L 0)) j := by
+  rw [lvals_eq L pc]
+  unfold lapEig
+  rw [List.map_append, ent_append, if_pos (by simpa [lvals] using hj)]
+
+/-- `laplacian` commutes with `ι` -/
+theorem laplacian_iota (r2 : F) (L pr pc : Nat) (x : List (List F)) (hx : ∀ r ∈ x, r.length = L) :
+    laplacian r2 L pc (iota L pr pc x) = iota L pr pc (laplacian r2 L 0 x) := by
+  unfold laplacian
+  apply mulLast_iota L pr pc x _ _ hx (by simp [lapEig_length, lvals_length])
+    (by simp [lapEig_length, lvals_length])
+  intro j hj
+  exact ent_lapEig_prefix r2 L pc j hj
+
+theorem ent_invEig (r2 : F) (L pc j : Nat) :
+    ent (invEig r2 L pc) j
+      = if j < L + pc then (if j = 0 ∨ L ≤ j then 0 else 1 / ent (lapEig r2 (lvals L pc)) j) else 0 := by
+  unfold invEig ent
+  simp only [List.getD_eq_getElem?_getD, List.getElem?_map, List.getElem?_zipIdx]
+  rcases Nat.lt_or_ge j (L + pc) with hj | hj
+  · have hj' : j < (lapEig r2 (lvals L pc)).length := by simpa [lapEig_length, lvals_length] using hj
+    rw [List.getElem?_eq_getElem hj', if_pos hj]
+    simp
+  · have hj' : (lapEig r2 (lvals L pc)).length ≤ j := by simpa [lapEig_length, lvals_length] using hj
+    rw [List.getElem?_eq_none hj', if_neg (by omega)]
+    simp
+
+/-- `inverse_laplacian` commutes with `ι`: the inverse eigenvalues are set to `0` at `l = 0` and on
+ the whole padding in the code itself, so no division by zero is involved -/
+theorem inverseLaplacian_iota (r2 : F) (L pr pc : Nat) (x : List (List F))
+    (hx : ∀ r ∈ x, r.length = L) :
+    inverseLaplacian r2 L pc (iota L pr pc x) = iota L pr pc (inverseLaplacian r2 L 0 x) := by
+  unfold inverseLaplacian
+  apply mulLast_iota L pr pc x _ _ hx (by simp [invEig, lapEig_length, lvals_length])
+    (by simp [invEig, lapEig_length, lvals_length])
+  intro j hj
+  rw [ent_invEig, ent_invEig, if_pos (show j < L + pc by omega), if_pos (show j < L + 0 by omega),
+    ent_lapEig_prefix r2 L pc j hj]
+
+/-- the eigenvalues and inverse eigenvalues vanish on the padding columns -/
+theorem eig_padding_zero (r2 : F) (L pc j : Nat) (hj : L ≤ j) :
+    ent (lapEig r2 (lvals L pc)) j = 0 ∧ ent (invEig r2 L pc) j = 0 := by
+  constructor
+  · rw [lvals_eq L pc]
+    unfold lapEig
+    rw [List.map_append, ent_append, if_neg (by simp [lvals]; omega)]
+    simp only [List.map_replicate]
+    unfold ent
+    simp only [List.getD_eq_getElem?_getD, List.getElem?_replicate]
+    split <;> simp
+  · rw [ent_invEig]
+    split
+    · rw [if_pos (Or.inr hj)]
+    · rfl
+
+
+/-! ## the two `basis` properties of the code satisfy `IotaRel` -/
+/-- the bases built by `RealSphericalHarmonics.basis` and `FastSphericalHarmonics.basis` from the
+ same Fourier tables, the same Legendre table `P` (any table of shape `M × J × L`) and the same
+ weights are `ι`-related, for every padding -/
+theorem iotaRel_bases (cs sn : Nat → F) (s2p sp : F) (M N J L pn pr pj pc : Nat) (hM : 1 ≤ M)
+    (P : List (List (List F))) (w : List F)
+    (hPj : ∀ pm ∈ P, pm.length = J) (hPl : ∀ pm ∈ P, ∀ pj ∈ pm, pj.length = L) :
+    IotaRel (realBasisOf (realBasis cs sn s2p sp M N) P w)
+      (fastBasisOf (realBasisZeroImag cs sn s2p sp M N) P w pn pr pj pc (2 * M) J L) M L J where
+  f0 := by
+    intro i r _
+    rw [ent2_fastBasisOf_f]; exact zeroImag_src cs sn s2p sp M N i r
+  f1 := by
+    intro i
+    rw [ent2_fastBasisOf_f]; exact zeroImag_one cs sn s2p sp M N i
+  fz := by
+    intro i r hr
+    rw [ent2_fastBasisOf_f]; exact zeroImag_tail cs sn s2p sp M N i r hM hr
+  p := by
+    intro r j l _ _ _
+    rw [ent3_fastBasisOf, ent3_realBasisOf]
+    have : src r / 2 = (r + 1) / 2 := by unfold src; split <;> omega
+    rw [this]
+  pz := by
+    intro m j l h
+    rw [ent3_fastBasisOf]; exact ent3_of_shape P J L m j l hPj hPl h
+  w := by
+    intro j _
+    rw [ent_fastBasisOf_w]; rfl
+
+/-- both bases have the shapes the transform theorems ask for -/
+theorem bases_shaped (cs sn : Nat → F) (s2p sp : F) (M N J L pn pr pj pc : Nat)
+    (P : List (List (List F))) (w : List F) (hP : P.length = M)
+    (hPj : ∀ pm ∈ P, pm.length = J) (hPl : ∀ pm ∈ P, ∀ pj ∈ pm, pj.length = L) (hw : w.length = J) :
+    Shaped (realBasisOf (realBasis cs sn s2p sp M N) P w) N (2 * M - 1) J L ∧
+    Shaped (fastBasisOf (realBasisZeroImag cs sn s2p sp M N) P w pn pr pj pc (2 * M) J L)
+      (N + pn) (M + pr / 2) (J + pj) (L + pc) :=
+  ⟨realBasisOf_shaped _ P w M N J L (realBasis_length cs sn s2p sp M N).1 hP hPj hPl hw,
+   fastBasisOf_shaped _ P w M N J L pn pr pj pc (realBasis_length cs sn s2p sp M N).2 hP hPj hPl hw⟩
+
+end field
 
 end Dino.C09
